@@ -70,6 +70,10 @@ func CheckC18(tier string, seed uint64, rep *core.Reporter) (*core.Evidence, err
 		return nil, err
 	}
 	report(rep, ctl)
+	detHash, err := w.DeterminismProbe(w.Runsim, "c18", seed, 700, nil)
+	if err != nil {
+		return nil, err
+	}
 	free, err := w.RunShards(w.RunsimRace, "c18", seed^0x5eed, freeRuns, 4, []string{"-free"},
 		[]string{"GORACE=halt_on_error=0 exitcode=0", "GOMAXPROCS=16"}, 60*time.Minute)
 	if err != nil {
@@ -122,6 +126,8 @@ func CheckC18(tier string, seed uint64, rep *core.Reporter) (*core.Evidence, err
 			"components_real":          []string{"lox binary built from the current tree", "generated lexers and parsers compiled by the Go compiler (plain and -race builds)", "unmodified simplelexer", "Go race detector"},
 			"components_simulated":     []string{"which goroutine runs next and for how many ticks (controlled configuration)", "token and byte streams"},
 			"components_stubbed":       []string{"stub lexer in parse-stub tasks"},
+			"determinism_probe":        "controlled configuration, same seed re-run with 14 shards/GOMAXPROCS=4 and 5 shards/GOMAXPROCS=1: all counters (incl. scheduler switches) identical, hash " + detHash,
+			"stats_hash_controlled":    ctl.StatsHash(),
 			"known_findings_hit":       rep.KnownHits,
 		},
 		Assumptions: []string{
